@@ -122,6 +122,7 @@ func cmdCheck(args []string) int {
 			x.MaxPaths = hs.MaxPaths
 		}
 		x.PanicsAreFailures = hs.Panics
+		x.Budget = time.Duration(envInt("VX_BUDGET", 900)) * time.Second
 		x.Known = known
 		x.Run()
 		fmt.Println(x.Summary())
@@ -188,6 +189,9 @@ func cmdCheck(args []string) int {
 		var ids []string
 		for _, f := range x.Failures {
 			key := f.AssertID
+			if f.Kind == "panic" {
+				key = f.AssertID + " @ " + f.Where
+			}
 			if f.Known != "" {
 				key = "known:" + f.Known
 			}
@@ -232,7 +236,7 @@ func cmdCheck(args []string) int {
 						validated++
 						rep.Replayed++
 						violations = append(violations, fmt.Sprintf("VIOLATION property=%s replay=%s", id, path))
-						fmt.Printf("  violated: %s (%s) %s\n", f.AssertID, hs.Name, f.Msg)
+						fmt.Printf("  violated: %s (%s) %s %s\n", f.AssertID, hs.Name, f.Msg, f.Where)
 						reported = true
 					}
 				} else {
